@@ -11,7 +11,8 @@ from ..tok import NONE
 DEFECTS = ["tc-special-set", "tc-dialog-no-close-p", "tc-endbr-keeps-frameset-ok", "tc-afterbody-space",
            "tc-command-void-in-head", "tc-chars-token-granularity", "tc-textarea-stays-in-body",
            "tc-cell-caption-ws-base", "tc-intable-other-drops-reprocess", "tc-frameset-pop-name-only",
-           "tc-adoption-inner-loop-3", "tc-anyotherend-ignores-namespace", "tc-isindex-expansion", "tc-no-rb-rtc", "tc-table-pre-lf-kept"]
+           "tc-adoption-inner-loop-3", "tc-anyotherend-ignores-namespace", "tc-isindex-expansion", "tc-no-rb-rtc", "tc-table-pre-lf-kept",
+           "tc-fragment-table-in-table-dropped", "tc-fragment-tokenizer-state"]
 TOK_DEFECTS = ["tok-commentstart-nul-stays", "tok-commentstartdash-nul-stays", "tok-cdata-nul-replaced"]
 
 
@@ -81,7 +82,7 @@ WITNESS = [  # inputs that exhibit each named deviation (document mode unless a 
     ("<b><main>x</b>y", None), ("<p><dialog>x", None), ("</br><frameset>", None), ("<p><b></p></body> y", None),
     ("<command>x", None), ("<frameset>x y</frameset>", None), ("<p><b></p><textarea>x", None),
     ("<table><td><p><b></p> y", None), ("<table><button><button>x", None), ("<frameset></frameset><noframes>", None),
-    ("<svg><html><desc><frameset>", None), ("<b><i><u><s><em><div>x</b></div></em></s></u>z", None), ("<svg><title><span></title>x", None), ("<ruby><rb>a<rb>b<rtc>c<rt>d", None), ("<isindex action=a prompt=b name=c>", None), ("<table><pre>\nx", None), ("x y", "colgroup"),
+    ("<svg><html><desc><frameset>", None), ("<b><i><u><s><em><div>x</b></div></em></s></u>z", None), ("<svg><title><span></title>x", None), ("<ruby><rb>a<rb>b<rtc>c<rt>d", None), ("<table><table>x", "div"), ("<b>x</b>", "noscript"), ("<!--<script></script>x", "script"), ("<isindex action=a prompt=b name=c>", None), ("<table><pre>\nx", None), ("x y", "colgroup"),
 ]
 
 
